@@ -96,6 +96,16 @@ func detProjects(n int) []*detCase {
 		add("field-settings-on-non-struct", []string{"a"},
 			&proj.Conv{Dir: "a", File: "conv.go", Name: "ConvA",
 				RawBody: "\t// goverter:ignore X\n\tA(int) int\n\t// goverter:ignore X\n\tB(string) string\n\t// goverter:ignore X\n\tC(bool) bool\n"})
+		// two packages that the go command itself cannot list (missing import / file without package clause) next to a
+		// type error: the package named in the diagnostic must not depend on how the patterns are ordered or overlap
+		{
+			id := len(cs)
+			mod := fmt.Sprintf("example.org/d%d", id)
+			pr := &proj.Project{Module: mod, Convs: []*proj.Conv{{Dir: "a", File: "conv.go", Name: "ConvA"}, {Dir: "b", File: "conv.go", Name: "ConvB"}, {Dir: "c", File: "conv.go", Name: "ConvC"}},
+				Extra: scratch.Tree{"a/broken.go": "package a\n\nimport _ \"" + mod + "/missing/one\"\n", "b/notes.go": "this file has no package clause\n",
+					"c/typeerr.go": "package c\n\nvar _ int = \"text\"\n"}}
+			cs = append(cs, &detCase{ID: id, Kind: "several-packages-the-go-command-cannot-list", Dirs: []string{"a", "b", "c"}, Project: pr})
+		}
 		add("two-faulty-packages", []string{"a", "b"},
 			&proj.Conv{Dir: "a", File: "conv.go", Name: "ConvA", Fault: "conversion"},
 			&proj.Conv{Dir: "b", File: "conv.go", Name: "ConvB", Fault: "directive"})
@@ -143,9 +153,9 @@ func runC09(e *env) error {
 	bin := goverterBin(e)
 	base := filepath.Join(e.scratch, "c09")
 	_ = os.MkdirAll(base, 0o755)
-	n, reps := 15, 4
+	n, reps := 16, 4
 	if e.thorough {
-		n, reps = 45*e.scale, 12
+		n, reps = 48*e.scale, 12
 	}
 	cases := detProjects(n)
 	type result struct {
